@@ -244,6 +244,10 @@ def main(chk: core.Check) -> int:
         object_histories(chk, 400 if thorough else 80)
         if not chk.failing:
             integer_columns(chk)
+        if not chk.failing:
+            # pivots handed over as Vector3D arrays that are not stored as (x, y, z), views of deeply nested arrays (shared with C07)
+            from checks import c07
+            c07.deep_views_and_pivot_kinds(chk)
     except core.DriverError as ex:
         chk.obligation_broken("correspondence", "helix driver", str(ex))
     return chk.finish(None)
